@@ -273,4 +273,31 @@ theorem block_phase_x_terminates : type_of% @GM.Props.ConvertX.block_phase_x_ter
 /-- (re-export of `GM.Props.ConvertX.table_transformer_admissible`) see `GM.Props.ConvertX.table_transformer_admissible` -/
 theorem table_transformer_admissible : type_of% @GM.Props.ConvertX.table_transformer_admissible := @GM.Props.ConvertX.table_transformer_admissible
 
+/-- (re-export of `GM.Props.ConvertE2E.block_store_info_closure_in_range`) `block_store_info_closure_in_range` (round 2: was part of hypothesis (b)). For EVERY source: in the store the
+    block phase returns (guarded or not), the info segment of every FencedCodeBlock and the closure line of every
+    HTMLBlock (`HasClosure()`) satisfy `0 ≤ start ≤ stop ≤ len(source)`, `padding ≥ 0`. A frame invariant that looks
+    at the reader: whenever the source reader hands out a line it is `Value` of the position it hands out, and both
+    segments are computed from a position handed out TOGETHER WITH a line. -/
+theorem block_store_info_closure_in_range : type_of% @GM.Props.ConvertE2E.block_store_info_closure_in_range := @GM.Props.ConvertE2E.block_store_info_closure_in_range
+
+/-- (re-export of `GM.Props.ConvertE2E.convert_no_value_panic_of_raw_lines`) `convert_no_value_panic_of_raw_lines`: `Err.value p` is unreachable given ONLY that the LINES of the raw blocks
+    (CodeBlock / FencedCodeBlock / HTMLBlock) of the store are in range — a consequence of `GM.Blocks.NodesOK src st`,
+    the conclusion of the no-panic theorems of the block phase. -/
+theorem convert_no_value_panic_of_raw_lines : type_of% @GM.Props.ConvertE2E.convert_no_value_panic_of_raw_lines := @GM.Props.ConvertE2E.convert_no_value_panic_of_raw_lines
+
+/-- (re-export of `GM.Props.ConvertE2E.convert_renderer_side_total_of_lines`) `convert_renderer_side_total_of_lines`: given that, `convertCore` only fails in the parse phases -/
+theorem convert_renderer_side_total_of_lines : type_of% @GM.Props.ConvertE2E.convert_renderer_side_total_of_lines := @GM.Props.ConvertE2E.convert_renderer_side_total_of_lines
+
+/-- (re-export of `GM.Props.ConvertE2E.inline_children_resolve`) `inline_children_resolve`: behind `convertCore`'s `WF0` check the inline children of EVERY block resolve to bytes —
+    no `Segment.Value` panic of a node renderer comes from an inline node. Unconditional. -/
+theorem inline_children_resolve : type_of% @GM.Props.ConvertE2E.inline_children_resolve := @GM.Props.ConvertE2E.inline_children_resolve
+
+/-- (re-export of `GM.Props.ConvertE2E.convert_no_value_panic_of_raw_segments`) `convert_no_value_panic_of_raw_segments`: `Err.value p` is unreachable given ONLY hypothesis (b) — in the store the
+    block phase returns, the lines of raw blocks, fenced info segments and HTML closure lines are in range -/
+theorem convert_no_value_panic_of_raw_segments : type_of% @GM.Props.ConvertE2E.convert_no_value_panic_of_raw_segments := @GM.Props.ConvertE2E.convert_no_value_panic_of_raw_segments
+
+/-- (re-export of `GM.Props.ConvertE2E.convert_renderer_side_total_partial`) `convert_renderer_side_total_partial`: given (b), `convertCore` can only fail in the parse phases — with a
+    `blocks …`, `linesNotWF0` or `inlines …` outcome; the renderer side (`value`, `render`) is total. -/
+theorem convert_renderer_side_total_partial : type_of% @GM.Props.ConvertE2E.convert_renderer_side_total_partial := @GM.Props.ConvertE2E.convert_renderer_side_total_partial
+
 end GM.Props.C01
